@@ -91,6 +91,8 @@ Shapes(f) ==
       [] f = "btmerc" -> {Sh(TmText("btmerc", lo, la, r), lo, la) : lo \in {9}, la \in (IF Q THEN {0} ELSE {0, 49}), r \in {"", " k_0=0.9996 x_0=500000 y_0=-100000"}}
       [] f = "butm" -> {UtmShape("butm", z, s) : z \in (IF Q THEN {32} ELSE {1, 32, 60}), s \in BOOLEAN}
       [] f = "merc" -> {Sh(t, 0, 0) : t \in {"merc", "merc lat_ts=56", "merc lat_ts=-30", "merc k_0=0.9996", "merc lon_0=9", "merc x_0=500000 y_0=-100000"}}
+                    \* merc accepts lat_0 as a shift of the latitude (degrees): the domain shifts with it
+                    \cup {Sh("merc lat_0=10", 0, 10), Sh("merc lat_0=-25 lon_0=9", 0, -25)}
       [] f = "webmerc" -> {Sh("webmerc", 0, 0)}
       [] f = "lcc" -> {Sh(t, 10, 0) : t \in {"lcc lat_1=57 lon_0=10", "lcc lat_1=-33 lon_0=10", "lcc lat_1=33 lat_2=45 lon_0=10", "lcc lat_1=-33 lat_2=-45 lon_0=10",
                                              "lcc lat_1=40 lat_2=60 lat_0=50 lon_0=10 k_0=0.9996 x_0=500000 y_0=-100000", "lcc lat_1=45 lat_2=45 lon_0=10"}}
@@ -159,7 +161,8 @@ GeodPts == {<<la, lo, az, di>> : la \in (IF Q THEN {-33, 0, 55} ELSE {-80, -33, 
 Pts(f, s) ==
     CASE f \in {"tmerc", "utm"} -> Around(s, DLon30, Lats89, {0})
       [] f \in {"btmerc", "butm"} -> Around(s, DLon3, Lats89, {0})
-      [] f \in {"merc", "webmerc", "lcc"} -> GeoPts(LonsGlobe, Lats89, {0})
+      [] f = "merc" -> {p \in GeoPts(LonsGlobe, Lats89, {0}) : Abs(p[2] + s.lat0) <= 89}
+      [] f \in {"webmerc", "lcc"} -> GeoPts(LonsGlobe, Lats89, {0})
       \* within 150 degrees of the centre: |dlat| + |dlon| bounds the spherical distance from above
       [] f = "laea" -> {p \in GeoPts({s.lon0 + d : d \in LonsGlobe}, Lats90, {0}) : Abs(p[2] - s.lat0) + Abs(p[1] - s.lon0) <= 150}
       [] f = "somerc" -> {<<s.lon0 + a, s.lat0 + b, 400, 2020>> : a \in Near, b \in Near}
@@ -182,7 +185,7 @@ Pts(f, s) ==
 InDomain(f, s, p) ==
     CASE f \in {"tmerc", "utm"}    -> Abs(p[1] - s.lon0) <= 30 /\ Abs(p[2]) <= 89
       [] f \in {"btmerc", "butm"}  -> Abs(p[1] - s.lon0) <= 3 /\ Abs(p[2]) <= 89
-      [] f \in {"merc", "webmerc", "lcc"} -> Abs(p[1]) <= 180 /\ Abs(p[2]) <= 89
+      [] f \in {"merc", "webmerc", "lcc"} -> Abs(p[1]) <= 180 /\ Abs(p[2]) <= 89 /\ (f = "merc" => Abs(p[2] + s.lat0) <= 89)
       [] f = "laea"                -> Abs(p[2] - s.lat0) + Abs(p[1] - s.lon0) <= 150 /\ Abs(p[2]) <= 90
       [] f = "cart"                -> Abs(p[2]) <= 90 /\ p[3] >= -10000 /\ p[3] <= 100000
       [] f = "cart_high"           -> Abs(p[2]) <= 90 /\ p[3] > 100000 /\ p[3] <= 10000000
